@@ -8,6 +8,7 @@ import (
 	"context"
 	"fmt"
 	"io"
+	"os"
 	"strings"
 	"time"
 
@@ -38,7 +39,45 @@ func (r recSeq) GetNextBatch(ctx context.Context, req coresequencer.GetNextBatch
 		}
 		r.w.released = append(r.w.released, b)
 	}
+	// the sequencing layer's clock: the real single sequencer stamps time.Now(); `same` = a coarse clock that still shows
+	// the time of the previous block, `back` = a clock that stepped backwards (1 ns before the previous block)
+	if err == nil && res != nil && r.w.env != nil {
+		switch r.w.clock {
+		case "same":
+			res.Timestamp = r.w.env.M.GetLastState().LastBlockTime
+		case "back":
+			res.Timestamp = r.w.env.M.GetLastState().LastBlockTime.Add(-time.Nanosecond)
+		}
+	}
 	return res, err
+}
+
+// SubmitBatchTxs: what the sequencing layer ACKNOWLEDGED is what was handed over
+func (r recSeq) SubmitBatchTxs(ctx context.Context, req coresequencer.SubmitBatchTxsRequest) (*coresequencer.SubmitBatchTxsResponse, error) {
+	res, err := r.Sequencer.SubmitBatchTxs(ctx, req)
+	if err != nil {
+		r.w.refused = true
+	}
+	if err == nil && req.Batch != nil {
+		for _, t := range req.Batch.Transactions {
+			r.w.acked = append(r.w.acked, append([]byte(nil), t...))
+		}
+	}
+	return res, err
+}
+
+// failPut: the reaper's seen-store with injectable Put errors
+type failPut struct {
+	ds.Batching
+	n *int
+}
+
+func (f failPut) Put(ctx context.Context, k ds.Key, v []byte) error {
+	if *f.n > 0 {
+		*f.n--
+		return hx.ErrInjected
+	}
+	return f.Batching.Put(ctx, k, v)
 }
 
 type World struct {
@@ -64,6 +103,13 @@ type World struct {
 	dupHanded    map[string]bool // handed over twice by ONE hand-off: the mempool response held the bytes twice
 	dupExcused   map[string]bool // a crash fell between the queue write of its hand-off and its seen-mark: may be handed over again
 	fromAtCrash  int
+	acked        [][]byte          // what SubmitBatchTxs acknowledged during the current reap
+	refused      bool              // SubmitBatchTxs answered the current reap with an error
+	clock        string            // the sequencing layer's clock during the current production step ("" = real)
+	armed        string            // datastore fault armed for the next operation: qput | seen | qdel | blk
+	seenFail     int               // next n Puts of the reaper's seen-store fail
+	mustRestart  bool              // a store write of the last production step failed: that error ends the node
+	faultExcused map[string]bool   // lost / included twice because of an injected datastore error (outside the property's quantifier)
 	notHanded    map[string]string // draining mempool: taken by a GetTxs call but not handed over -> why
 }
 
@@ -153,7 +199,9 @@ func (w *World) start(img map[string][]byte) string {
 		return "start err"
 	}
 	w.dead = false
-	w.reaper = block.NewReaper(context.Background(), env.Exec, env.RealSeq, bm.ChainID, time.Hour, logging.Logger("verif"), namespace.Wrap(env.DS, ds.NewKey("reap")))
+	w.mustRestart = false
+	w.reaper = block.NewReaper(context.Background(), env.Exec, env.RealSeq, bm.ChainID, time.Hour, logging.Logger("verif"),
+		failPut{namespace.Wrap(env.DS, ds.NewKey("reap")), &w.seenFail})
 	w.reaper.SetManager(env.M)
 	w.from = env.DS.NumWrites()
 	return "start " + w.observe(env.Height())
@@ -181,6 +229,12 @@ func Run(c *hx.Ctx) {
 			c.Emit("dead")
 			continue
 		}
+		if w.mustRestart && o.Verb != "reset" && o.Verb != "restart" && o.Verb != "crash" {
+			c.Emit("needs-restart") // a failed store write has ended the node
+			continue
+		}
+		armed := w.armed
+		w.armed = ""
 		switch o.Verb {
 		case "reset":
 			w.opt = bm.Options{InitialHeight: 1, GenesisTime: time.Unix(0, o.I64("gt")), Aggregator: true}
@@ -189,8 +243,20 @@ func Run(c *hx.Ctx) {
 			w.lossCause = map[string]string{}
 			w.dupHanded, w.dupExcused, w.notHanded = map[string]bool{}, map[string]bool{}, map[string]string{}
 			w.lastBatch, w.relBefore = nil, -1
+			w.armed, w.seenFail, w.faultExcused = "", 0, map[string]bool{}
 			w.exec = &hx.Exec{}
 			c.Emit("%s", w.start(nil))
+		case "fail":
+			// a transient datastore error during the NEXT operation: qput = the queue's write-ahead Put of a hand-off,
+			// seen = the reaper's mark of the first transaction, qdel = the queue's Delete of the batch handed out,
+			// blk = the first block save of a production step
+			switch o.Str("what") {
+			case "qput", "seen", "qdel", "blk":
+				w.armed = o.Str("what")
+				c.Emit("ok")
+			default:
+				c.Emit("bad-op")
+			}
 		case "mempool":
 			// mode=drain: GetTxs is destructive (the in-repo reference executor's is): every transaction is answered once
 			w.env.Exec.Mempool = o.List("txs")
@@ -200,7 +266,6 @@ func Run(c *hx.Ctx) {
 			e := w.env
 			before := e.Height()
 			w.from = e.DS.NumWrites()
-			qBefore := w.count("/seq/")
 			w.handedBefore = len(w.handed)
 			offered := append([][]byte(nil), e.Exec.Mempool...)
 			drainMode := e.Exec.Drain
@@ -210,28 +275,44 @@ func Run(c *hx.Ctx) {
 					unseen[string(tx)]++
 				}
 			}
+			switch armed {
+			case "qput":
+				e.DS.FailPut = 1
+			case "seen":
+				w.seenFail = 1
+			}
+			w.acked, w.refused = nil, false
 			w.reaper.SubmitTxs()
-			// ghost: after a successful hand-off the transactions are marked as seen
+			if armed == "qput" && e.DS.FailPut == 0 {
+				c.Hit("fault-qput")
+			}
+			e.DS.FailPut, w.seenFail = 0, 0
+			// ghost: what the sequencing layer acknowledged was handed over
+			ackedN := map[string]int{}
+			for _, tx := range w.acked {
+				ackedN[string(tx)]++
+				w.handed = append(w.handed, tx)
+				w.lastBatch = append(w.lastBatch, tx)
+				delete(w.notHanded, string(tx))
+				if ackedN[string(tx)] > 1 {
+					w.dupHanded[string(tx)] = true // the response holds the bytes twice: both copies are handed over
+				}
+				if armed == "seen" && !w.isSeen(tx) {
+					// its mark failed (logged, ignored by the reaper): it will be handed over again
+					w.faultExcused[string(tx)] = true
+					c.Hit("fault-seen")
+				}
+			}
 			for _, tx := range offered {
 				k := string(tx)
-				if unseen[k] == 0 {
+				if unseen[k] == 0 || ackedN[k] > 0 {
 					continue
 				}
-				if w.isSeen(tx) {
-					n := unseen[k]
-					unseen[k] = 0
-					if n > 1 {
-						w.dupHanded[k] = true // the response holds the bytes twice: both copies are handed over
-					}
-					for ; n > 0; n-- {
-						w.handed = append(w.handed, tx)
-						w.lastBatch = append(w.lastBatch, tx)
-					}
-					delete(w.notHanded, k)
-				} else if drainMode {
+				unseen[k] = 0
+				if drainMode {
 					// taken from a draining mempool and not handed over: nobody will ever offer it again
 					if _, ok := w.notHanded[k]; !ok {
-						if w.qmax > 0 && qBefore >= w.qmax {
+						if w.refused {
 							w.notHanded[k] = "refused-handoff-with-draining-mempool"
 						} else {
 							w.notHanded[k] = "not-handed-over-with-draining-mempool"
@@ -248,21 +329,72 @@ func Run(c *hx.Ctx) {
 			// exec=fail: the execution layer answers this step's ExecuteTxs with an error (engine unreachable / time-out);
 			// followed by `restart` this is also "the node dies while the execution layer works on the block"
 			fail := o.Str("exec") == "fail"
+			// clock=same|back: the timestamp of this step's GetNextBatch answer (see recSeq)
+			w.clock = o.Str("clock")
+			if w.clock != "same" && w.clock != "back" {
+				w.clock = ""
+			}
+			if fail || w.clock != "" {
+				armed = "" // a datastore fault applies to a plain step only
+			}
+			switch armed {
+			case "qdel":
+				e.DS.FailDelete = 1
+			case "blk":
+				e.DS.FailCommit = 1
+			}
 			w.exec.Fail = fail
 			w.relBefore = len(w.released)
-			err := e.M.VerifPublishBlock(context.Background())
+			var err error
+			if armed == "qdel" {
+				// BatchQueue.Next reports a failing Delete with fmt.Printf on the process's stdout: keep it out of the observation stream
+				stdout := os.Stdout
+				if null, oerr := os.OpenFile(os.DevNull, os.O_WRONLY, 0); oerr == nil {
+					os.Stdout = null
+					err = e.M.VerifPublishBlock(context.Background())
+					os.Stdout = stdout
+					null.Close()
+				} else {
+					err = e.M.VerifPublishBlock(context.Background())
+				}
+			} else {
+				err = e.M.VerifPublishBlock(context.Background())
+			}
 			w.exec.Fail = false
 			cls := "nil"
 			if err != nil {
 				cls = errClass(err)
 			}
 			c.Emit("produce out=%s %s", cls, w.observe(before))
-			if fail {
+			cause := "after-production-step"
+			switch {
+			case fail:
 				c.Hit("produce-exec-fail")
-				w.track("after-execution-failure", nil)
-			} else {
-				w.track("after-production-step", nil)
+				cause = "after-execution-failure"
+			case w.clock == "same":
+				c.Hit("produce-clock-same")
+				cause = "after-production-step-with-equal-timestamp"
+			case w.clock == "back":
+				c.Hit("produce-clock-back")
+				cause = "batch-dropped-on-timestamp-regression"
 			}
+			w.clock = ""
+			faulted := (armed == "qdel" && e.DS.FailDelete == 0) || (armed == "blk" && e.DS.FailCommit == 0)
+			if armed == "blk" && e.DS.FailCommit == 0 {
+				w.mustRestart = true // "failed to save block": the error ends the aggregation loop and the node
+			}
+			e.DS.FailDelete, e.DS.FailCommit = 0, 0
+			if faulted {
+				// a datastore error is outside the property's quantifier: what it makes the node lose (early save failed after
+				// the batch was taken) or include twice (the record of a batch handed out stays in the queue) is not reported
+				c.Hit("fault-" + armed)
+				for _, b := range w.released[w.relBefore:] {
+					for _, tx := range b {
+						w.faultExcused[string(tx)] = true
+					}
+				}
+			}
+			w.track(cause, nil)
 		case "restart", "crash":
 			e := w.env
 			n := e.DS.NumWrites()
@@ -344,6 +476,8 @@ func errClass(err error) string {
 		return "err:time"
 	case strings.Contains(s, "error applying block"):
 		return "err:exec"
+	case strings.Contains(s, "failed to save block"):
+		return "err:store"
 	}
 	return "err:other"
 }
@@ -388,7 +522,7 @@ func (w *World) checkConservation() {
 		}
 	}
 	for _, tx := range w.handed {
-		if !containsTx(chain, tx) && !dur[string(tx)] {
+		if !containsTx(chain, tx) && !dur[string(tx)] && !w.faultExcused[string(tx)] {
 			// the operation after which the transaction was in no block, not waiting at height+1 and not queued names the
 			// cause; a loss no operation of the scenario explains is `other`
 			sig := "C11/lost/other"
@@ -409,7 +543,7 @@ func (w *World) checkConservation() {
 	for _, tx := range chain {
 		k := string(tx)
 		count[k]++
-		if count[k] != 2 || w.dupExcused[k] {
+		if count[k] != 2 || w.dupExcused[k] || w.faultExcused[k] {
 			continue
 		}
 		if w.dupHanded[k] {
